@@ -142,6 +142,46 @@ def body(ctx):
             if sorted(map(key, q1)) != sorted(map(key, qn)) or sq1 != sqn or rcq1 != rcq:
                 ctx.violation("implementation violates the specification: quiet style with 16 threads differs from the sequential run",
                               f"directory: {d}\nfiles: {' '.join(files)}\nsequential:\n{outq1[:800]}\nthreads=16:\n{outq[:800]}")
+        # directory argument whose glob also matches unreadable entries (directories named *.lua: open() succeeds,
+        # read() fails, one error each, counted by a worker outside the stdout lock) between files with long
+        # blocks of output: every counter update must survive, whichever thread makes it and whenever
+        for si in range(2 if ctx.tier == "quick" else 8):
+            d = os.path.join(ctx.workdir, f"dirset{si}")
+            inner = os.path.join(d, "src")
+            os.makedirs(inner, exist_ok=True)
+            n_files = rng.randint(24, 40)
+            every = rng.choice([2, 3, 4])
+            body_text = "".join(f"local v{j} = {j}\n" for j in range(1, rng.choice([120, 200, 320])))
+            n_bad = 0
+            for i in range(n_files):
+                with open(os.path.join(inner, f"f{i:03d}.lua"), "w") as fh:
+                    fh.write(body_text)
+                if i % every == every - 1:
+                    os.makedirs(os.path.join(inner, f"f{i:03d}x.lua"), exist_ok=True)
+                    n_bad += 1
+            os.makedirs(os.path.join(inner, "zz.lua"), exist_ok=True)
+            n_bad += 1
+            cli.write_config(d, name="cfg.toml")
+            aw = si % 2 == 0
+            rc1, out1, err1 = run_once(ctx, d, ["src"], 1, "json2", aw)
+            d1, s1, bad1 = cli.parse_json_lines(out1)
+            ctx.evaluations += 1
+            if s1 is None or s1.get("errors") != n_bad:
+                ctx.violation(f"implementation violates the specification: sequential run over a directory with {n_bad} unreadable entries reports summary {s1}",
+                              f"directory: {d}\nargument: src\nstdout (tail):\n{out1[-800:]}\nstderr (head):\n{err1[:800]}")
+                continue
+            for threads in (2, 3, 4, 16):
+                for rep in range(2 if ctx.tier == "quick" else 6):
+                    tp = os.path.join(d, f"trace_{threads}_{rep}.txt")
+                    rc, out, err = run_once(ctx, d, ["src"], threads, "json2", aw, tp)
+                    dn, sn, badn = cli.parse_json_lines(out)
+                    ctx.evaluations += 1
+                    if badn or sn != s1 or rc != rc1 or per_file(dn) != per_file(d1):
+                        ctx.violation(f"implementation violates the specification: --num-threads {threads} over a directory with {n_bad} unreadable entries: summary/exit {sn}/{rc}, sequential run {s1}/{rc1}",
+                                      f"directory: {d}\nargument: src (files f000.lua.. with {len(body_text.splitlines())} warnings each; every {every}th followed by a directory named *.lua)\nthreads: {threads}\nstdout (tail):\n{out[-600:]}")
+                    evs = parse_trace(tp)
+                    panics = err.count("The application panicked")
+                    lines.append(f"C18.trace\t({' '.join(evs)})\t({rc} {panics} {'true' if aw else 'false'})")
     finally:
         if load:
             for p in load:
